@@ -5,7 +5,9 @@
    characterisations (iff); no hardness assumption is made anywhere.
    Proofs are in proofs/Algebra.v. *)
 From Coq Require Import ZArith List Ring Ring_theory.
-From TS Require Import Algebra.
+From Coq Require Import Bool.
+From Coq.Strings Require Import Byte.
+From TS Require Import Bytes State Prog Ops Interp Algebra AdapterLink.
 Import ListNotations.
 
 (* ---- the definitions the statements are about (mirror of tapescript/functions.py) ---- *)
@@ -346,6 +348,41 @@ Example C17_private_variant_refuted_Z :
   ~ sig_validZ (pubZ 2) 0 2 13.
 Proof. exact private_variant_refuted_Z. Qed.
 
+(* ---- the three adapter INSTRUCTIONS compute exactly the algebra above (proofs/AdapterLink.v) ----
+   For every scalar ring / point group / encodings es, ep / hash h512 / reduction red and every oracle that answers
+   the ed25519 primitives according to them (hypotheses O_sha ... O_valid of Section Link), in every frame, state,
+   configuration and runner.  The closed statements (all Section hypotheses explicit) are printed by Check. *)
+Definition C17_make_public_instruction_computes := @make_public_computes_gen.
+Definition C17_check_instruction_computes := @check_computes_prop.
+Definition C17_decrypt_instruction_computes := @decrypt_computes.
+Definition C17_instructions_adapter_checks := @adapter_instr_checks.
+Definition C17_instructions_adapter_decrypts_and_recovers := @adapter_instr_decrypts.
+Definition C17_make_private_instruction_computes := @make_private_computes.
+Definition C17_private_instruction_check_iff := @private_instr_check_iff.
+Check C17_make_public_instruction_computes.
+Check C17_check_instruction_computes.
+Check C17_decrypt_instruction_computes.
+Check C17_instructions_adapter_checks.
+Check C17_instructions_adapter_decrypts_and_recovers.
+Check C17_private_instruction_check_iff.
+
+(* non-vacuity: a model of every hypothesis (the two-element field), and a concrete run of the three instructions *)
+Example C17_link_hypotheses_satisfiable_run :
+  exists sab Rb sb R'b,
+    interp borc bcfg brun OP_MAKE_ADAPTER_SIG_PUBLIC bfr (bst [bep true; [x01]; bseed]) = Done tt bfr (bst [sab; Rb]) /\
+    interp borc bcfg brun OP_CHECK_ADAPTER_SIG bfr (bst [bep true; bep true; [x01]; Rb; sab]) = Done tt bfr (bst [[xff]]) /\
+    interp borc bcfg brun OP_DECRYPT_ADAPTER_SIG bfr (bst [bes true; Rb; sab]) = Done tt bfr (bst [sb; R'b]) /\
+    bds sb && true = xorb (bds R'b) (bred (bh512 (R'b ++ bep true ++ [x01])) && true).
+Proof. exact bool_concrete_run. Qed.
+
+Print Assumptions C17_make_public_instruction_computes.
+Print Assumptions C17_check_instruction_computes.
+Print Assumptions C17_decrypt_instruction_computes.
+Print Assumptions C17_instructions_adapter_checks.
+Print Assumptions C17_instructions_adapter_decrypts_and_recovers.
+Print Assumptions C17_make_private_instruction_computes.
+Print Assumptions C17_private_instruction_check_iff.
+Print Assumptions C17_link_hypotheses_satisfiable_run.
 Print Assumptions C17_adapter_checks.
 Print Assumptions C17_adapter_decrypts.
 Print Assumptions C17_recover_decrypt.
